@@ -1737,6 +1737,10 @@ M('C13', 'session-key-cached-per-message', PGP, "        if sessionkey is None:\
   "        if sessionkey is None:\n            sessionkey = message.__dict__.setdefault('_sk', cipher_algo.gen_key())\n\n        # set up a new PKESessionKeyV3", 'C13.2')
 M('C13', 'skesk-salt-shared-with-copy', PK, "        self.s2k.salt = bytearray(os.urandom(8))\n        esk = self.s2k.derive_key(passphrase)", "        self.s2k = copy.copy(self.s2k)\n        self.s2k.salt = self.s2k.salt or bytearray(os.urandom(8))\n        esk = self.s2k.derive_key(passphrase)", 'C13.2')
 
+M('C03', 'pkesk-wire-keyid-truncated', PK, "        _bytes += binascii.unhexlify(self.encrypter.encode())\n        _bytes += bytearray([self.pkalg])", "        _bytes += binascii.unhexlify(self.encrypter.encode()[:8])\n        _bytes += bytearray([self.pkalg])", 'C03.1')
+T('C03', 'twin-pkesk-wire-single-expression', PK, "        _bytes = bytearray()\n        _bytes += super(PKESessionKeyV3, self).__bytearray__()\n        _bytes += binascii.unhexlify(self.encrypter.encode())\n        _bytes += bytearray([self.pkalg])\n        _bytes += self.ct.__bytearray__() if self.ct is not None else b'\\x00' * (self.header.length - 10)\n        return _bytes",
+  "        keyid = binascii.a2b_hex(self.encrypter.encode('ascii'))\n        body = self.ct.__bytearray__() if self.ct is not None else bytes(self.header.length - 10)\n        return b''.join([super(PKESessionKeyV3, self).__bytearray__(), keyid, bytes([self.pkalg]), body])")
+
 # =============================================================================================== C02
 M('C02', 'hash2-last-two', PGP, "        sig._signature.hash2 = bytearray(h2.digest()[:2])", "        sig._signature.hash2 = bytearray(h2.digest()[-2:])", 'C02.2')
 M('C02', 'signer-hashdata-none', PGP, "        _sig = self._key.sign(sigdata, getattr(hashes, sig.hash_algorithm.name)())", "        _sig = self._key.sign(sig.hashdata(None), getattr(hashes, sig.hash_algorithm.name)())", 'C02.2')
